@@ -33,15 +33,22 @@ Qed.
 Lemma zeros_0 : zeros 0 = [].
 Proof. reflexivity. Qed.
 
-(* the prefix of pwrite has exactly [off] bytes *)
+(* the raw positional write (what ByteFile.pwrite is for a non-empty payload) *)
+Definition pw (data : bytes) (off : nat) (b : bytes) : bytes :=
+  firstn off (data ++ zeros (off - length data)) ++ b ++ skipn (off + length b) data.
+
+Lemma pwrite_pw d o b : b <> [] -> pwrite d o b = pw d o b.
+Proof. destruct b; [contradiction | reflexivity]. Qed.
+
+(* the prefix of pw has exactly [off] bytes *)
 Lemma pwrite_prefix_length (d : bytes) off :
   length (firstn off (d ++ zeros (off - length d))) = off.
 Proof. rewrite firstn_length, app_length, zeros_length. lia. Qed.
 
-Lemma srv_writeat_pwrite c off b : 0 <= off ->
-  srv_writeat c off b = pwrite c (Z.to_nat off) b.
+Lemma srv_writeat_pw c off b : 0 <= off ->
+  srv_writeat c off b = pw c (Z.to_nat off) b.
 Proof.
-  intros Hoff. unfold srv_writeat, pwrite, zlen.
+  intros Hoff. unfold srv_writeat, pw, zlen.
   set (o := Z.to_nat off).
   assert (Ho : off = Z.of_nat o) by (subst o; lia).
   destruct (Z.ltb_spec 0 (Z.of_nat (length b) + off - Z.of_nat (length c))) as [Hg|Hg].
@@ -71,51 +78,72 @@ Proof.
     symmetry. apply firstn_all2. rewrite app_length, zeros_length. lia.
 Qed.
 
-Lemma pwrite_length d o b : length (pwrite d o b) = Nat.max (length d) (o + length b).
+Lemma pw_length d o b : length (pw d o b) = Nat.max (length d) (o + length b).
 Proof.
-  unfold pwrite. rewrite !app_length, pwrite_prefix_length, skipn_length. lia.
+  unfold pw. rewrite !app_length, pwrite_prefix_length, skipn_length. lia.
 Qed.
 
 (* two consecutive writes are one write of the concatenation *)
-Lemma pwrite_app d o a b : pwrite (pwrite d o a) (o + length a) b = pwrite d o (a ++ b).
+Lemma pw_app d o a b : pw (pw d o a) (o + length a) b = pw d o (a ++ b).
 Proof.
-  unfold pwrite at 1.
+  unfold pw at 1.
   set (P := firstn o (d ++ zeros (o - length d))).
   assert (HP : length P = o) by apply pwrite_prefix_length.
-  set (d1 := pwrite d o a).
+  set (d1 := pw d o a).
   assert (Hd1 : d1 = (P ++ a) ++ skipn (o + length a) d)
-    by (subst d1 P; unfold pwrite; now rewrite app_assoc).
+    by (subst d1 P; unfold pw; now rewrite app_assoc).
   assert (Hl : length (P ++ a) = (o + length a)%nat) by (rewrite app_length; lia).
   replace (o + length a - length d1)%nat with 0%nat
-    by (subst d1; rewrite pwrite_length; lia).
+    by (subst d1; rewrite pw_length; lia).
   rewrite zeros_0, app_nil_r.
   rewrite Hd1 at 1. rewrite <- Hl at 1. rewrite firstn_app_exact.
   rewrite Hd1. replace (o + length a + length b)%nat with (length (P ++ a) + length b)%nat by lia.
   rewrite <- skipn_skipn, skipn_app_exact, skipn_skipn.
-  unfold pwrite. fold P. rewrite app_length, <- !app_assoc.
+  unfold pw. fold P. rewrite app_length, <- !app_assoc.
   do 3 f_equal. f_equal. lia.
+Qed.
+
+(* an empty raw write only zero-extends up to the offset *)
+Lemma pw_nil d o : pw d o [] = zext d o.
+Proof.
+  unfold pw, zext, ptrunc. cbn [app length]. rewrite Nat.add_0_r.
+  destruct (Nat.le_gt_cases o (length d)) as [H|H].
+  - replace (o - length d)%nat with 0%nat by lia. rewrite zeros_0, app_nil_r, firstn_skipn.
+    replace (Nat.max (length d) o) with (length d) by lia.
+    rewrite Nat.sub_diag, zeros_0, app_nil_r. symmetry. apply firstn_all.
+  - replace (Nat.max (length d) o) with o by lia.
+    rewrite (skipn_all2 d) by lia. now rewrite app_nil_r.
 Qed.
 
 Lemma max_packet_pos : (0 < max_packet)%nat.
 Proof. apply Nat.ltb_lt. vm_compute. reflexivity. Qed.
 
-Lemma write_chunks_pwrite fuel : forall c off b, 0 <= off -> (length b < fuel)%nat ->
-  write_chunks fuel c off b = pwrite c (Z.to_nat off) b.
+Lemma write_chunks_pw fuel : forall c off b, 0 <= off -> (length b < fuel)%nat ->
+  write_chunks fuel c off b = pw c (Z.to_nat off) b.
 Proof.
   induction fuel as [|fu IH]; intros c off b Hoff Hlen; [lia|].
   cbn [write_chunks].
   destruct (Nat.leb_spec (length b) max_packet) as [Hs|Hs].
-  - now apply srv_writeat_pwrite.
+  - now apply srv_writeat_pw.
   - pose proof max_packet_pos as Hm.
     rewrite IH; [| lia | rewrite skipn_length; lia].
-    rewrite srv_writeat_pwrite by exact Hoff.
+    rewrite srv_writeat_pw by exact Hoff.
     replace (Z.to_nat (off + Z.of_nat max_packet))
       with (Z.to_nat off + length (firstn max_packet b))%nat
       by (rewrite firstn_length; lia).
-    rewrite pwrite_app, firstn_skipn. reflexivity.
+    rewrite pw_app, firstn_skipn. reflexivity.
 Qed.
 
-(* from here on the packet loop is only used through write_chunks_pwrite *)
+(* the packet loop against the flat-array spec: pwrite for a non-empty payload, the zero
+   extension for an empty one *)
+Lemma write_chunks_pwrite c off b : 0 <= off -> b <> [] ->
+  write_chunks (S (length b)) c off b = pwrite c (Z.to_nat off) b.
+Proof. intros Ho Hb. rewrite write_chunks_pw by lia. symmetry. now apply pwrite_pw. Qed.
+
+Lemma write_chunks_nil c off : 0 <= off -> write_chunks 1 c off [] = zext c (Z.to_nat off).
+Proof. intros Ho. rewrite write_chunks_pw by (simpl; lia). apply pw_nil. Qed.
+
+(* from here on the packet loop is only used through write_chunks_pwrite / write_chunks_nil *)
 Global Opaque write_chunks max_packet.
 
 (* ================================================================ B. keys and maps *)
@@ -230,44 +258,44 @@ Proof.
 Qed.
 
 Lemma srv_openfile_ok s k cr ex tr s' id :
-  srv_openfile s k cr ex tr = SOk (s', id) ->
-  lfetch (s_tree s') k = Some (NFile id) /\
-  s_objs s' = match lfetch (s_tree s) k with
-              | Some (NFile i) => if tr then list_set i [] (s_objs s) else s_objs s
-              | Some NDir => s_objs s
-              | None => s_objs s ++ [[]]
+  srv_openfile s k cr ex tr = SfOk (s', id) ->
+  lfetch (sv_tree s') k = Some (SfFile id) /\
+  sv_objs s' = match lfetch (sv_tree s) k with
+              | Some (SfFile i) => if tr then list_set i [] (sv_objs s) else sv_objs s
+              | Some SfDir => sv_objs s
+              | None => sv_objs s ++ [[]]
               end.
 Proof.
-  unfold srv_openfile. destruct (lfetch (s_tree s) k) as [n|] eqn:El.
+  unfold srv_openfile. destruct (lfetch (sv_tree s) k) as [n|] eqn:El.
   - destruct (cr && ex); [discriminate|]. destruct n as [|i]; [discriminate|].
     intros H; inversion H; subst. destruct tr; simpl; rewrite ?srv_truncate_0; auto.
   - destruct cr; [|discriminate]. unfold putfile.
-    destruct (canon_err (s_tree s) k); [discriminate|]. rewrite El.
+    destruct (canon_err (sv_tree s) k); [discriminate|]. rewrite El.
     intros H; inversion H; subst; simpl. split; [|reflexivity].
     rewrite lfetch_kset by (eapply lfetch_none_nonroot; eauto). now rewrite keqb_refl.
 Qed.
 
-Lemma srv_setstat_none_after s k id : lfetch (s_tree s) k = Some (NFile id) -> srv_setstat s k None = SOk s.
+Lemma srv_setstat_none_after s k id : lfetch (sv_tree s) k = Some (SfFile id) -> srv_setstat s k None = SfOk s.
 Proof. intros H. unfold srv_setstat, srv_openfile. now rewrite H. Qed.
 
-Lemma srv_setstat_none_objs s k s' : srv_setstat s k None = SOk s' -> s' = s.
+Lemma srv_setstat_none_objs s k s' : srv_setstat s k None = SfOk s' -> s' = s.
 Proof.
-  unfold srv_setstat, srv_openfile. destruct (lfetch (s_tree s) k) as [[|i]|]; simpl; try discriminate.
+  unfold srv_setstat, srv_openfile. destruct (lfetch (sv_tree s) k) as [[|i]|]; simpl; try discriminate.
   intros H; now inversion H.
 Qed.
 
 Lemma c_open_ok s name flag cl s' f :
-  c_open s name flag cl = SOk (s', f) ->
-  lfetch (s_tree s') (sf_key f) = Some (NFile (sf_obj f)) /\
+  c_open s name flag cl = SfOk (s', f) ->
+  lfetch (sv_tree s') (sf_key f) = Some (SfFile (sf_obj f)) /\
   sf_key f = skey name /\ sf_off f = 0 /\ sf_closed f = false /\
-  s_objs s' = acct_open (s_tree s) name (has_flag flag o_trunc) (s_objs s).
+  sv_objs s' = acct_open (sv_tree s) name (has_flag flag o_trunc) (sv_objs s).
 Proof.
   unfold c_open, acct_open. cbv zeta. intros H.
   assert (Hm : exists m,
     match srv_openfile s (skey name) (has_flag flag o_create) (has_flag flag o_excl) (has_flag flag o_trunc) with
-    | SErr e => SErr e
-    | SOk (s0, id) => SOk (s0, mkSF name (skey name) id m 0 false cl)
-    end = SOk (s', f)).
+    | SfErr e => SfErr e
+    | SfOk (s0, id) => SfOk (s0, mkSfFile name (skey name) id m 0 false cl)
+    end = SfOk (s', f)).
   { repeat match type of H with context [if ?b then _ else _] => destruct b end;
       try discriminate; eexists; exact H. }
   clear H. destruct Hm as [m H].
@@ -305,16 +333,16 @@ Lemma fs_mkdirall_eq fixed fuel s path :
   end.
 Proof. destruct fuel; reflexivity. Qed.
 
-Lemma srv_mkdir_objs s k s' : srv_mkdir s k = SOk s' -> s_objs s' = s_objs s.
+Lemma srv_mkdir_objs s k s' : srv_mkdir s k = SfOk s' -> sv_objs s' = sv_objs s.
 Proof. unfold srv_mkdir. destruct (putfile _ _ _); [|discriminate]. intros H; now inversion H. Qed.
 
-Lemma fs_mkdir_objs s p : s_objs (fst (fs_mkdir s p)) = s_objs s.
+Lemma fs_mkdir_objs s p : sv_objs (fst (fs_mkdir s p)) = sv_objs s.
 Proof.
   unfold fs_mkdir. destruct (srv_mkdir s (skey p)) as [s1|e] eqn:E; [|reflexivity].
   simpl. eapply srv_mkdir_objs; eauto.
 Qed.
 
-Lemma mk_finish_objs s p : s_objs (fst (mk_finish s p)) = s_objs s.
+Lemma mk_finish_objs s p : sv_objs (fst (mk_finish s p)) = sv_objs s.
 Proof.
   unfold mk_finish. pose proof (fs_mkdir_objs s p) as H.
   destruct (fs_mkdir s p) as [s2 r]; simpl in H.
@@ -322,7 +350,7 @@ Proof.
   destruct (srv_stat s2 (skey p)) as [[[|] ?]|]; exact H.
 Qed.
 
-Lemma fs_mkdirall_objs fixed fuel : forall s p, s_objs (fst (fs_mkdirall fixed fuel s p)) = s_objs s.
+Lemma fs_mkdirall_objs fixed fuel : forall s p, sv_objs (fst (fs_mkdirall fixed fuel s p)) = sv_objs s.
 Proof.
   induction fuel as [|fu IH]; intros s p; rewrite fs_mkdirall_eq;
     destruct (srv_stat s (skey p)) as [[[|] ?]|]; try reflexivity;
@@ -331,14 +359,14 @@ Proof.
   destruct r; try exact IH. rewrite mk_finish_objs. exact IH.
 Qed.
 
-Lemma fs_remove_objs s p : s_objs (fst (fs_remove s p)) = s_objs s.
+Lemma fs_remove_objs s p : sv_objs (fst (fs_remove s p)) = sv_objs s.
 Proof.
-  unfold fs_remove. destruct (lfetch (s_tree s) (skey p)) as [[|i]|]; try reflexivity.
-  unfold srv_rmdir. destruct (lfetch (s_tree s) (skey p)) as [[|i]|]; try reflexivity.
+  unfold fs_remove. destruct (lfetch (sv_tree s) (skey p)) as [[|i]|]; try reflexivity.
+  unfold srv_rmdir. destruct (lfetch (sv_tree s) (skey p)) as [[|i]|]; try reflexivity.
   destruct (has_child _ _); reflexivity.
 Qed.
 
-Lemma srv_rename_objs s a b s' : srv_rename s a b = SOk s' -> s_objs s' = s_objs s.
+Lemma srv_rename_objs s a b s' : srv_rename s a b = SfOk s' -> sv_objs s' = sv_objs s.
 Proof.
   unfold srv_rename. destruct (srv_exists _ _); [discriminate|].
   destruct (lfetch _ a); [|discriminate]. destruct a; [discriminate|].
@@ -346,7 +374,7 @@ Proof.
   intros H; now inversion H.
 Qed.
 
-Lemma fs_rename_objs s a b : s_objs (fst (fs_rename s a b)) = s_objs s.
+Lemma fs_rename_objs s a b : sv_objs (fst (fs_rename s a b)) = sv_objs s.
 Proof.
   unfold fs_rename. destruct (srv_rename s (skey a) (skey b)) eqn:E; [|reflexivity].
   simpl. eapply srv_rename_objs; eauto.
@@ -358,13 +386,13 @@ Proof. unfold zlen. rewrite Nat2Z.id. apply firstn_all. Qed.
 Lemma is_empty_zlen (b : bytes) : zlen b = 0 -> is_empty b = true.
 Proof. destruct b; [reflexivity | unfold zlen; simpl; lia]. Qed.
 
-Lemma srv_openfile_nocreate s k ex s' id : srv_openfile s k false ex false = SOk (s', id) -> s' = s.
+Lemma srv_openfile_nocreate s k ex s' id : srv_openfile s k false ex false = SfOk (s', id) -> s' = s.
 Proof.
-  unfold srv_openfile. destruct (lfetch (s_tree s) k) as [[|i]|]; simpl; try discriminate.
+  unfold srv_openfile. destruct (lfetch (sv_tree s) k) as [[|i]|]; simpl; try discriminate.
   intros H; now inversion H.
 Qed.
 
-Lemma c_open_rdonly_objs s p cl s' f : c_open s p o_rdonly cl = SOk (s', f) -> s_objs s' = s_objs s.
+Lemma c_open_rdonly_objs s p cl s' f : c_open s p o_rdonly cl = SfOk (s', f) -> sv_objs s' = sv_objs s.
 Proof.
   unfold c_open. cbv zeta.
   change (Z.land o_rdonly 3) with 0. change (has_flag o_rdonly o_append) with false.
@@ -374,32 +402,38 @@ Proof.
   intros H; inversion H; subst. apply srv_openfile_nocreate in E. now subst.
 Qed.
 
+Lemma acc_seq_ok_write c off b : 0 <= off ->
+  write_chunks (S (length b)) c off b = acc_seq c off b (zlen b) None.
+Proof.
+  intros Ho. unfold acc_seq. destruct b as [|x b].
+  - now apply write_chunks_nil.
+  - destruct (Z.eqb_spec (zlen (x :: b)) 0) as [Hz|Hz]; [unfold zlen in Hz; simpl in Hz; lia|].
+    rewrite firstn_zlen. apply write_chunks_pwrite; [exact Ho | discriminate].
+Qed.
+
+Lemma acc_seq_err c off b e : acc_seq c off b 0 (Some e) = c.
+Proof. unfold acc_seq. destruct b; reflexivity. Qed.
+
 Lemma c_writeat_acc c f b off c' n e : c_writeat c f b off = (c', n, e) ->
   match c' with Some x => x = acc_seq c off b n e | None => acc_seq c off b n e = c end.
 Proof.
-  unfold c_writeat, acc_seq. destruct (sf_closed f).
-  { intros Hx; inversion Hx; subst. cbn. now rewrite orb_true_r. }
+  unfold c_writeat. destruct (sf_closed f).
+  { intros Hx; inversion Hx; subst. apply acc_seq_err. }
   destruct (sf_mode f).
   - destruct (Z.ltb_spec off 0).
-    { intros Hx; inversion Hx; subst. cbn. now rewrite orb_true_r. }
-    intros Hx; inversion Hx; subst. cbn [sf_is_some]. rewrite orb_false_r.
-    rewrite firstn_zlen, write_chunks_pwrite by lia.
-    destruct (Z.eqb_spec (zlen b) 0) as [Hz|Hz]; [|reflexivity].
-    now rewrite (is_empty_zlen b Hz).
-  - intros Hx; inversion Hx; subst. cbn. now rewrite orb_true_r.
+    { intros Hx; inversion Hx; subst. apply acc_seq_err. }
+    intros Hx; inversion Hx; subst. now apply acc_seq_ok_write.
+  - intros Hx; inversion Hx; subst. apply acc_seq_err.
   - destruct (Z.ltb_spec off 0).
-    { intros Hx; inversion Hx; subst. cbn. now rewrite orb_true_r. }
-    intros Hx; inversion Hx; subst. cbn [sf_is_some]. rewrite orb_false_r.
-    rewrite firstn_zlen, write_chunks_pwrite by lia.
-    destruct (Z.eqb_spec (zlen b) 0) as [Hz|Hz]; [|reflexivity].
-    now rewrite (is_empty_zlen b Hz).
+    { intros Hx; inversion Hx; subst. apply acc_seq_err. }
+    intros Hx; inversion Hx; subst. now apply acc_seq_ok_write.
 Qed.
 
 Lemma write_acct_objs (s : server) f c' n e b :
-  match c' with Some x => x = acc_seq (obj_content (s_objs s) (sf_obj f)) (sf_off f) b n e
-              | None => acc_seq (obj_content (s_objs s) (sf_obj f)) (sf_off f) b n e = obj_content (s_objs s) (sf_obj f) end ->
-  s_objs (sf_upd_obj s (sf_obj f) c') =
-  list_set (sf_obj f) (acc_seq (obj_content (s_objs s) (sf_obj f)) (sf_off f) b n e) (s_objs s).
+  match c' with Some x => x = acc_seq (obj_content (sv_objs s) (sf_obj f)) (sf_off f) b n e
+              | None => acc_seq (obj_content (sv_objs s) (sf_obj f)) (sf_off f) b n e = obj_content (sv_objs s) (sf_obj f) end ->
+  sv_objs (sf_upd_obj s (sf_obj f) c') =
+  list_set (sf_obj f) (acc_seq (obj_content (sv_objs s) (sf_obj f)) (sf_off f) b n e) (sv_objs s).
 Proof.
   destruct c' as [x|]; cbn.
   - now intros ->.
@@ -408,10 +442,10 @@ Qed.
 
 (* the central step lemma: the file objects after a step are what the REPORTED result accounts for *)
 Lemma step_acct st it :
-  s_objs (st_srv (fst (sftp_step st it))) = acct st it (snd (sftp_step st it)) (s_objs (st_srv st)).
+  sv_objs (sst_srv (fst (sftp_step st it))) = acct st it (snd (sftp_step st it)) (sv_objs (sst_srv st)).
 Proof.
   destruct it as [slot o]. destruct st as [s slots].
-  destruct o; unfold sftp_step, acct; cbn [fst snd st_srv st_slots].
+  destruct o; unfold sftp_step, acct; cbn [fst snd sst_srv sst_slots].
   - (* Create *)
     destruct (c_open s p create_flags true) as [[s' f]|e] eqn:E; cbn; [|reflexivity].
     apply c_open_ok in E. destruct E as (_ & _ & _ & _ & E). exact E.
@@ -467,7 +501,7 @@ Proof.
     destruct (sf_slot_get slots h) as [f|] eqn:Eh; [|reflexivity].
     destruct (sf_closed f); [reflexivity|].
     unfold srv_setstat, srv_openfile.
-    destruct (lfetch (s_tree s) (sf_key f)) as [[|i]|] eqn:El; cbn; try reflexivity.
+    destruct (lfetch (sv_tree s) (sf_key f)) as [[|i]|] eqn:El; cbn; try reflexivity.
     destruct (Z.ltb_spec n 0); cbn; [reflexivity|].
     now rewrite srv_truncate_ptrunc by lia.
   - (* HClose *)
@@ -489,7 +523,7 @@ Lemma accounted_cons st it r tr o : accounted ((st, it, r) :: tr) o = accounted 
 Proof. reflexivity. Qed.
 
 Theorem writes_accounted : forall (items : list sitem) (st : sftp_state),
-  s_objs (st_srv (fst (sftp_run st items))) = accounted (sftp_trace st items) (s_objs (st_srv st)).
+  sv_objs (sst_srv (fst (sftp_run st items))) = accounted (sftp_trace st items) (sv_objs (sst_srv st)).
 Proof.
   induction items as [|it items IH]; intros st; [reflexivity|].
   cbn [sftp_run sftp_trace].
@@ -508,13 +542,16 @@ Proof.
 Qed.
 
 (* a full count with no error stored the whole payload at the position; a zero count stored nothing *)
-Lemma acc_seq_full d pos b : acc_seq d pos b (zlen b) None = pwrite d (Z.to_nat pos) b.
+Lemma acc_seq_full d pos b : b <> [] -> acc_seq d pos b (zlen b) None = pwrite d (Z.to_nat pos) b.
 Proof.
-  unfold acc_seq. rewrite firstn_zlen. cbn [sf_is_some]. rewrite orb_false_r.
-  destruct (Z.eqb_spec (zlen b) 0) as [Hz|Hz]; [|reflexivity]. now rewrite (is_empty_zlen b Hz).
+  intros Hb. unfold acc_seq. destruct b as [|x b]; [contradiction|].
+  destruct (Z.eqb_spec (zlen (x :: b)) 0) as [Hz|Hz]; [unfold zlen in Hz; simpl in Hz; lia|].
+  now rewrite firstn_zlen.
 Qed.
 Lemma acc_seq_zero d pos b e : b <> [] -> acc_seq d pos b 0 e = d.
 Proof. unfold acc_seq. destruct b; [contradiction|]. reflexivity. Qed.
+Lemma acc_seq_empty d pos : acc_seq d pos [] 0 None = zext d (Z.to_nat pos).
+Proof. reflexivity. Qed.
 Lemma acc_at_zero d off b : acc_at d off b 0 = d.
 Proof. reflexivity. Qed.
 Lemma acc_at_full d off b : b <> [] -> acc_at d off b (zlen b) = pwrite d (Z.to_nat off) b.
@@ -526,14 +563,14 @@ Qed.
 
 (* ================================================================ E. reads return what the server holds *)
 Theorem reads_exact st it r :
-  spec_read st (s_objs (st_srv st)) it = Some r -> snd (sftp_step st it) = r.
+  spec_read st (sv_objs (sst_srv st)) it = Some r -> snd (sftp_step st it) = r.
 Proof.
   destruct it as [slot o]. destruct st as [s slots]. unfold spec_read, sftp_step.
-  cbn [fst snd st_srv st_slots].
+  cbn [fst snd sst_srv sst_slots].
   destruct o; try discriminate.
   - (* Stat *)
     unfold fs_stat, srv_stat, spec_size.
-    destruct (lfetch (s_tree s) (skey p)) as [[|i]|]; intros Hx; inversion Hx; reflexivity.
+    destruct (lfetch (sv_tree s) (skey p)) as [[|i]|]; intros Hx; inversion Hx; reflexivity.
   - (* HRead *)
     destruct (sf_slot_get slots h) as [f|]; [|discriminate].
     unfold c_readat. destruct (sf_closed f); [discriminate|].
@@ -565,17 +602,17 @@ Proof.
     { destruct (Z.leb_spec 0 (sf_off f + off)); [|discriminate]. intros Hx; inversion Hx; subst.
       destruct (Z.ltb_spec (off + sf_off f) 0); [lia|]. cbn. now rewrite Z.add_comm. }
     destruct (Z.eqb_spec whence 2) as [W2|W2]; [|discriminate].
-    destruct (lfetch (s_tree s) (sf_key f)) as [[|i]|]; try discriminate.
+    destruct (lfetch (sv_tree s) (sf_key f)) as [[|i]|]; try discriminate.
     + destruct (Z.leb_spec 0 (0 + off)); [|discriminate]. intros Hx; inversion Hx; subst.
       destruct (Z.ltb_spec (off + 0) 0); [lia|]. cbn. now rewrite Z.add_comm.
-    + destruct (Z.leb_spec 0 (zlen (obj_content (s_objs s) i) + off)); [|discriminate].
+    + destruct (Z.leb_spec 0 (zlen (obj_content (sv_objs s) i) + off)); [|discriminate].
       intros Hx; inversion Hx; subst.
-      destruct (Z.ltb_spec (off + zlen (obj_content (s_objs s) i)) 0); [lia|]. cbn. now rewrite Z.add_comm.
+      destruct (Z.ltb_spec (off + zlen (obj_content (sv_objs s) i)) 0); [lia|]. cbn. now rewrite Z.add_comm.
   - (* HStat *)
     destruct (sf_slot_get slots h) as [f|]; [|discriminate].
     destruct (sf_closed f); [discriminate|].
     unfold srv_stat, spec_size.
-    destruct (lfetch (s_tree s) (sf_key f)) as [[|i]|]; intros Hx; inversion Hx; reflexivity.
+    destruct (lfetch (sv_tree s) (sf_key f)) as [[|i]|]; intros Hx; inversion Hx; reflexivity.
 Qed.
 
 (* ================================================================ F. the position of a handle is the sum of what was reported *)
@@ -610,7 +647,7 @@ Proof.
 Qed.
 
 Lemma slot_get_bind s slots slot g i : slot <> Some i ->
-  sf_slot_get (st_slots (sf_bind s slots slot g)) i = sf_slot_get slots i.
+  sf_slot_get (sst_slots (sf_bind s slots slot g)) i = sf_slot_get slots i.
 Proof.
   unfold sf_bind. destruct slot as [j|]; cbn; [|reflexivity].
   intros H. apply slot_get_slot_set_other. congruence.
@@ -620,24 +657,24 @@ Definition same_handle (f f' : sfile) : Prop :=
   sf_obj f' = sf_obj f /\ sf_key f' = sf_key f /\ sf_mode f' = sf_mode f /\ sf_name f' = sf_name f.
 
 Theorem offsets_track_reports st slot o i f :
-  sf_slot_get (st_slots st) i = Some f -> ~ rebinds slot o i ->
-  exists f', sf_slot_get (st_slots (fst (sftp_step st (slot, o)))) i = Some f' /\
+  sf_slot_get (sst_slots st) i = Some f -> ~ rebinds slot o i ->
+  exists f', sf_slot_get (sst_slots (fst (sftp_step st (slot, o)))) i = Some f' /\
              same_handle f f' /\
              sf_off f' = next_off o i (sf_off f) (snd (sftp_step st (slot, o))).
 Proof.
-  destruct st as [s slots]. cbn [st_slots]. intros Hi Hnr.
+  destruct st as [s slots]. cbn [sst_slots]. intros Hi Hnr.
   assert (Hsame : same_handle f f) by (repeat split).
   assert (Hkeep : exists f', sf_slot_get slots i = Some f' /\ same_handle f f' /\ sf_off f' = sf_off f)
     by (exists f; auto).
-  destruct o; unfold sftp_step, next_off, rebinds in *; cbn [fst snd st_srv st_slots].
-  - destruct (c_open s p create_flags true) as [[s' g]|e]; cbn [fst snd st_slots]; [|(cbn; apply Hkeep)].
+  destruct o; unfold sftp_step, next_off, rebinds in *; cbn [fst snd sst_srv sst_slots].
+  - destruct (c_open s p create_flags true) as [[s' g]|e]; cbn [fst snd sst_slots]; [|(cbn; apply Hkeep)].
     exists f. rewrite slot_get_bind by exact Hnr. auto.
   - destruct (fs_mkdir s p) as [s' r]; cbn. destruct r; (cbn; apply Hkeep).
   - destruct (fs_mkdirall false (S (length p)) s p) as [s' r]; cbn. destruct r; (cbn; apply Hkeep).
-  - destruct (c_open s p o_rdonly true) as [[s' g]|e]; cbn [fst snd st_slots]; [|(cbn; apply Hkeep)].
+  - destruct (c_open s p o_rdonly true) as [[s' g]|e]; cbn [fst snd sst_slots]; [|(cbn; apply Hkeep)].
     exists f. rewrite slot_get_bind by exact Hnr. auto.
-  - destruct (c_open s p flag false) as [[s' g]|e]; cbn [fst snd st_slots]; [|(cbn; apply Hkeep)].
-    destruct (srv_setstat s' (sf_key g) None); cbn [fst snd st_slots]; [|(cbn; apply Hkeep)].
+  - destruct (c_open s p flag false) as [[s' g]|e]; cbn [fst snd sst_slots]; [|(cbn; apply Hkeep)].
+    destruct (srv_setstat s' (sf_key g) None); cbn [fst snd sst_slots]; [|(cbn; apply Hkeep)].
     exists f. rewrite slot_get_bind by exact Hnr. auto.
   - destruct (fs_remove s p) as [s' r]; cbn. destruct r; (cbn; apply Hkeep).
   - (cbn; apply Hkeep).
@@ -647,50 +684,50 @@ Proof.
   - cbn. destruct (fs_setattr s p); (cbn; apply Hkeep).
   - cbn. destruct (fs_setattr s p); (cbn; apply Hkeep).
   - (* HRead *)
-    destruct (sf_slot_get slots h) as [g|] eqn:Eh; cbn [fst snd st_slots]; [|rewrite Hi; eauto].
-    destruct (c_readat _ g n (sf_off g)) as [b e]. cbn [fst snd st_slots].
+    destruct (sf_slot_get slots h) as [g|] eqn:Eh; cbn [fst snd sst_slots]; [|rewrite Hi; eauto].
+    destruct (c_readat _ g n (sf_off g)) as [b e]. cbn [fst snd sst_slots].
     rewrite (slot_get_list_set _ _ _ _ _ Eh).
     destruct (Nat.eqb_spec i h) as [->|Hne]; [|eauto].
     rewrite Hi in Eh; inversion Eh; subst g. eexists; split; [reflexivity|]. split; [repeat split | reflexivity].
-  - destruct (sf_slot_get slots h) as [g|] eqn:Eh; cbn [fst snd st_slots]; [|rewrite Hi; eauto].
+  - destruct (sf_slot_get slots h) as [g|] eqn:Eh; cbn [fst snd sst_slots]; [|rewrite Hi; eauto].
     destruct (c_readat _ g n off) as [b e]. cbn. rewrite Hi; eauto.
   - (* HWrite *)
-    destruct (sf_slot_get slots h) as [g|] eqn:Eh; cbn [fst snd st_slots]; [|rewrite Hi; eauto].
-    destruct (c_writeat _ g b (sf_off g)) as [[c' n] e]. cbn [fst snd st_slots].
+    destruct (sf_slot_get slots h) as [g|] eqn:Eh; cbn [fst snd sst_slots]; [|rewrite Hi; eauto].
+    destruct (c_writeat _ g b (sf_off g)) as [[c' n] e]. cbn [fst snd sst_slots].
     rewrite (slot_get_list_set _ _ _ _ _ Eh).
     destruct (Nat.eqb_spec i h) as [->|Hne]; [|eauto].
     rewrite Hi in Eh; inversion Eh; subst g. eexists; split; [reflexivity|]. split; [repeat split | reflexivity].
-  - destruct (sf_slot_get slots h) as [g|] eqn:Eh; cbn [fst snd st_slots]; rewrite Hi; eauto.
+  - destruct (sf_slot_get slots h) as [g|] eqn:Eh; cbn [fst snd sst_slots]; rewrite Hi; eauto.
   - (* HWriteString *)
-    destruct (sf_slot_get slots h) as [g|] eqn:Eh; cbn [fst snd st_slots]; [|rewrite Hi; eauto].
-    destruct (c_writeat _ g b (sf_off g)) as [[c' n] e]. cbn [fst snd st_slots].
+    destruct (sf_slot_get slots h) as [g|] eqn:Eh; cbn [fst snd sst_slots]; [|rewrite Hi; eauto].
+    destruct (c_writeat _ g b (sf_off g)) as [[c' n] e]. cbn [fst snd sst_slots].
     rewrite (slot_get_list_set _ _ _ _ _ Eh).
     destruct (Nat.eqb_spec i h) as [->|Hne]; [|eauto].
     rewrite Hi in Eh; inversion Eh; subst g. eexists; split; [reflexivity|]. split; [repeat split | reflexivity].
   - (* HSeek *)
-    destruct (sf_slot_get slots h) as [g|] eqn:Eh; cbn [fst snd st_slots]; [|rewrite Hi; eauto].
-    destruct (sf_closed g); cbn [fst snd st_slots]; [rewrite Hi; eauto|].
-    match goal with |- context [match ?tt with SOk _ => _ | SErr _ => _ end] => destruct tt as [tg|e] end;
-      cbn [fst snd st_slots]; [|rewrite Hi; eauto].
-    destruct (tg <? 0); cbn [fst snd st_slots]; [rewrite Hi; eauto|].
+    destruct (sf_slot_get slots h) as [g|] eqn:Eh; cbn [fst snd sst_slots]; [|rewrite Hi; eauto].
+    destruct (sf_closed g); cbn [fst snd sst_slots]; [rewrite Hi; eauto|].
+    match goal with |- context [match ?tt with SfOk _ => _ | SfErr _ => _ end] => destruct tt as [tg|e] end;
+      cbn [fst snd sst_slots]; [|rewrite Hi; eauto].
+    destruct (tg <? 0); cbn [fst snd sst_slots]; [rewrite Hi; eauto|].
     rewrite (slot_get_list_set _ _ _ _ _ Eh).
     destruct (Nat.eqb_spec i h) as [->|Hne]; [|eauto].
     rewrite Hi in Eh; inversion Eh; subst g. eexists; split; [reflexivity|]. split; [repeat split | reflexivity].
   - (* HTruncate *)
-    destruct (sf_slot_get slots h) as [g|] eqn:Eh; cbn [fst snd st_slots]; [|rewrite Hi; eauto].
-    destruct (sf_closed g); cbn [fst snd st_slots]; [rewrite Hi; eauto|].
+    destruct (sf_slot_get slots h) as [g|] eqn:Eh; cbn [fst snd sst_slots]; [|rewrite Hi; eauto].
+    destruct (sf_closed g); cbn [fst snd sst_slots]; [rewrite Hi; eauto|].
     destruct (srv_setstat s (sf_key g) (Some n)); cbn; rewrite Hi; eauto.
   - (* HClose *)
-    destruct (sf_slot_get slots h) as [g|] eqn:Eh; cbn [fst snd st_slots]; [|rewrite Hi; eauto].
-    destruct (sf_closed g); cbn [fst snd st_slots]; [rewrite Hi; eauto|].
+    destruct (sf_slot_get slots h) as [g|] eqn:Eh; cbn [fst snd sst_slots]; [|rewrite Hi; eauto].
+    destruct (sf_closed g); cbn [fst snd sst_slots]; [rewrite Hi; eauto|].
     rewrite (slot_get_list_set _ _ _ _ _ Eh).
     destruct (Nat.eqb_spec i h) as [->|Hne]; [|eauto].
     rewrite Hi in Eh; inversion Eh; subst g. eexists; split; [reflexivity|]. split; [repeat split | reflexivity].
-  - destruct (sf_slot_get slots h) as [g|] eqn:Eh; cbn [fst snd st_slots]; [|rewrite Hi; eauto].
+  - destruct (sf_slot_get slots h) as [g|] eqn:Eh; cbn [fst snd sst_slots]; [|rewrite Hi; eauto].
     destruct (sf_client g); [destruct (sff_readdir s g n)|]; cbn; rewrite Hi; eauto.
-  - destruct (sf_slot_get slots h) as [g|] eqn:Eh; cbn [fst snd st_slots]; [|rewrite Hi; eauto].
+  - destruct (sf_slot_get slots h) as [g|] eqn:Eh; cbn [fst snd sst_slots]; [|rewrite Hi; eauto].
     destruct (sf_client g); [destruct (sff_readdir s g n)|]; cbn; rewrite Hi; eauto.
-  - destruct (sf_slot_get slots h) as [g|] eqn:Eh; cbn [fst snd st_slots]; [|rewrite Hi; eauto].
+  - destruct (sf_slot_get slots h) as [g|] eqn:Eh; cbn [fst snd sst_slots]; [|rewrite Hi; eauto].
     destruct (sf_closed g); [|destruct (srv_stat s (sf_key g)) as [[? ?]|]]; cbn; rewrite Hi; eauto.
   - destruct (sf_slot_get slots h) as [g|] eqn:Eh; cbn; rewrite Hi; eauto.
   - destruct (sf_slot_get slots h) as [g|] eqn:Eh; cbn; rewrite Hi; eauto.
@@ -699,7 +736,7 @@ Qed.
 (* ================================================================ G. names: well-formed trees *)
 (* every entry has a non-root name and its parent is a directory *)
 Definition wf (t : list (pkey * snode)) : Prop :=
-  forall k v, In (k, v) t -> k <> [] /\ lfetch t (removelast k) = Some NDir.
+  forall k v, In (k, v) t -> k <> [] /\ lfetch t (removelast k) = Some SfDir.
 
 Lemma wf_nil : wf [].
 Proof. intros k v []. Qed.
@@ -730,7 +767,7 @@ Qed.
 Lemma lfetch_nonroot t k : k <> [] -> lfetch t k = kget k t.
 Proof. destruct k; [contradiction | reflexivity]. Qed.
 
-Lemma putfile_wf t k n t' : wf t -> putfile t k n = SOk t' -> wf t'.
+Lemma putfile_wf t k n t' : wf t -> putfile t k n = SfOk t' -> wf t'.
 Proof.
   unfold putfile, canon_err. intros Hwf.
   destruct (lfetch t (removelast k)) as [[|i]|] eqn:Ep; try discriminate.
@@ -752,7 +789,7 @@ Proof.
   rewrite lfetch_kdel by (eapply Hnc; eauto). exact Hp.
 Qed.
 
-Lemma kdel_wf_file t k i : wf t -> lfetch t k = Some (NFile i) -> wf (kdel k t).
+Lemma kdel_wf_file t k i : wf t -> lfetch t k = Some (SfFile i) -> wf (kdel k t).
 Proof.
   intros Hwf Hk. apply kdel_wf; [exact Hwf|]. intros k' v' Hin Heq.
   destruct (Hwf _ _ Hin) as [_ Hp]. rewrite Heq in Hp. congruence.
@@ -840,25 +877,25 @@ Qed.
 (* what a successful SSH_FXP_RENAME has checked *)
 Definition rename_pre (t : list (pkey * snode)) (p tg : pkey) : Prop :=
   wf t /\ p <> [] /\ (exists n, lfetch t p = Some n) /\ lfetch t tg = None /\
-  lfetch t (removelast tg) = Some NDir /\ kstrip p tg = None.
+  lfetch t (removelast tg) = Some SfDir /\ kstrip p tg = None.
 
 Definition renamed (t : list (pkey * snode)) (p tg : pkey) : list (pkey * snode) :=
   map (fun '(k, v) => (rename_key p tg k, v)) t.
 
-Lemma srv_rename_ok s p tg s' : wf (s_tree s) -> srv_rename s p tg = SOk s' ->
-  rename_pre (s_tree s) p tg /\ s' = mkSrv (renamed (s_tree s) p tg) (s_objs s).
+Lemma srv_rename_ok s p tg s' : wf (sv_tree s) -> srv_rename s p tg = SfOk s' ->
+  rename_pre (sv_tree s) p tg /\ s' = mkSfSrv (renamed (sv_tree s) p tg) (sv_objs s).
 Proof.
   intros Hwf. unfold srv_rename, srv_exists.
-  destruct (canon_err (s_tree s) tg) as [e|] eqn:Ec.
-  - destruct (lfetch (s_tree s) p); [|discriminate]. destruct p; discriminate.
-  - destruct (lfetch (s_tree s) tg) eqn:Et; [discriminate|].
-    destruct (lfetch (s_tree s) p) as [n|] eqn:Ep; [|discriminate].
+  destruct (canon_err (sv_tree s) tg) as [e|] eqn:Ec.
+  - destruct (lfetch (sv_tree s) p); [|discriminate]. destruct p; discriminate.
+  - destruct (lfetch (sv_tree s) tg) eqn:Et; [discriminate|].
+    destruct (lfetch (sv_tree s) p) as [n|] eqn:Ep; [|discriminate].
     destruct p as [|x p]; [discriminate|].
     destruct (kstrip (x :: p) tg) eqn:Ek; [discriminate|].
     intros H; inversion H; subst; clear H. split; [|reflexivity].
     unfold rename_pre. split; [exact Hwf|]. split; [discriminate|]. split; [eauto|].
     split; [exact Et|]. split; [|exact Ek].
-    unfold canon_err in Ec. destruct (lfetch (s_tree s) (removelast tg)) as [[|i]|]; try discriminate. reflexivity.
+    unfold canon_err in Ec. destruct (lfetch (sv_tree s) (removelast tg)) as [[|i]|]; try discriminate. reflexivity.
 Qed.
 
 Lemma rename_no_under_tg t p tg : rename_pre t p tg -> forall k v, In (k, v) t -> kstrip tg k = None.
@@ -954,44 +991,44 @@ Proof.
 Qed.
 
 (* ---- every operation keeps the tree well-formed *)
-Lemma srv_openfile_wf s k cr ex tr s' id : wf (s_tree s) -> srv_openfile s k cr ex tr = SOk (s', id) -> wf (s_tree s').
+Lemma srv_openfile_wf s k cr ex tr s' id : wf (sv_tree s) -> srv_openfile s k cr ex tr = SfOk (s', id) -> wf (sv_tree s').
 Proof.
-  intros Hwf. unfold srv_openfile. destruct (lfetch (s_tree s) k) as [n|].
+  intros Hwf. unfold srv_openfile. destruct (lfetch (sv_tree s) k) as [n|].
   - destruct (cr && ex); [discriminate|]. destruct n; [discriminate|].
     intros H; inversion H; subst. destruct tr; exact Hwf.
   - destruct cr; [|discriminate]. destruct (putfile _ _ _) as [t'|e] eqn:E; [|discriminate].
     intros H; inversion H; subst. cbn. eapply putfile_wf; eauto.
 Qed.
 
-Lemma c_open_wf s name flag cl s' f : wf (s_tree s) -> c_open s name flag cl = SOk (s', f) -> wf (s_tree s').
+Lemma c_open_wf s name flag cl s' f : wf (sv_tree s) -> c_open s name flag cl = SfOk (s', f) -> wf (sv_tree s').
 Proof.
   intros Hwf. unfold c_open. cbv zeta. intros H.
-  assert (Hm : exists id, srv_openfile s (skey name) (has_flag flag o_create) (has_flag flag o_excl) (has_flag flag o_trunc) = SOk (s', id)).
+  assert (Hm : exists id, srv_openfile s (skey name) (has_flag flag o_create) (has_flag flag o_excl) (has_flag flag o_trunc) = SfOk (s', id)).
   { repeat match type of H with context [if ?b then _ else _] => destruct b end; try discriminate;
       destruct (srv_openfile s (skey name) _ _ _) as [[s1 id]|e]; try discriminate;
       inversion H; subst; eauto. }
   destruct Hm as [id Hm]. eapply srv_openfile_wf; eauto.
 Qed.
 
-Lemma srv_setstat_tree s k sz s' : srv_setstat s k sz = SOk s' -> s_tree s' = s_tree s.
+Lemma srv_setstat_tree s k sz s' : srv_setstat s k sz = SfOk s' -> sv_tree s' = sv_tree s.
 Proof.
-  unfold srv_setstat, srv_openfile. destruct (lfetch (s_tree s) k) as [[|i]|]; cbn; try discriminate.
+  unfold srv_setstat, srv_openfile. destruct (lfetch (sv_tree s) k) as [[|i]|]; cbn; try discriminate.
   destruct sz as [n|]; [destruct (n <? 0); [discriminate|]|]; intros H; inversion H; reflexivity.
 Qed.
 
-Lemma srv_mkdir_wf s k s' : wf (s_tree s) -> srv_mkdir s k = SOk s' -> wf (s_tree s').
+Lemma srv_mkdir_wf s k s' : wf (sv_tree s) -> srv_mkdir s k = SfOk s' -> wf (sv_tree s').
 Proof.
   intros Hwf. unfold srv_mkdir. destruct (putfile _ _ _) as [t'|e] eqn:E; [|discriminate].
   intros H; inversion H; subst. cbn. eapply putfile_wf; eauto.
 Qed.
 
-Lemma fs_mkdir_wf s p : wf (s_tree s) -> wf (s_tree (fst (fs_mkdir s p))).
+Lemma fs_mkdir_wf s p : wf (sv_tree s) -> wf (sv_tree (fst (fs_mkdir s p))).
 Proof.
   intros Hwf. unfold fs_mkdir. destruct (srv_mkdir s (skey p)) as [s1|e] eqn:E; [|exact Hwf].
   cbn. eapply srv_mkdir_wf; eauto.
 Qed.
 
-Lemma mk_finish_wf s p : wf (s_tree s) -> wf (s_tree (fst (mk_finish s p))).
+Lemma mk_finish_wf s p : wf (sv_tree s) -> wf (sv_tree (fst (mk_finish s p))).
 Proof.
   intros Hwf. unfold mk_finish. pose proof (fs_mkdir_wf s p Hwf) as H.
   destruct (fs_mkdir s p) as [s2 r]; cbn in H.
@@ -999,7 +1036,7 @@ Proof.
   destruct (srv_stat s2 (skey p)) as [[[|] ?]|]; exact H.
 Qed.
 
-Lemma fs_mkdirall_wf fixed fuel : forall s p, wf (s_tree s) -> wf (s_tree (fst (fs_mkdirall fixed fuel s p))).
+Lemma fs_mkdirall_wf fixed fuel : forall s p, wf (sv_tree s) -> wf (sv_tree (fst (fs_mkdirall fixed fuel s p))).
 Proof.
   induction fuel as [|fu IH]; intros s p Hwf; rewrite fs_mkdirall_eq;
     destruct (srv_stat s (skey p)) as [[[|] ?]|]; try exact Hwf;
@@ -1008,24 +1045,24 @@ Proof.
   destruct r; try exact IH. apply mk_finish_wf. exact IH.
 Qed.
 
-Lemma fs_remove_wf s p : wf (s_tree s) -> wf (s_tree (fst (fs_remove s p))).
+Lemma fs_remove_wf s p : wf (sv_tree s) -> wf (sv_tree (fst (fs_remove s p))).
 Proof.
-  intros Hwf. unfold fs_remove. destruct (lfetch (s_tree s) (skey p)) as [[|i]|] eqn:El; try exact Hwf.
-  - unfold srv_rmdir. rewrite El. destruct (has_child (s_tree s) (skey p)) eqn:Ec; [exact Hwf|].
+  intros Hwf. unfold fs_remove. destruct (lfetch (sv_tree s) (skey p)) as [[|i]|] eqn:El; try exact Hwf.
+  - unfold srv_rmdir. rewrite El. destruct (has_child (sv_tree s) (skey p)) eqn:Ec; [exact Hwf|].
     cbn. apply kdel_wf; [exact Hwf | now apply has_child_false].
   - cbn. eapply kdel_wf_file; eauto.
 Qed.
 
-Lemma fs_rename_wf s a b : wf (s_tree s) -> wf (s_tree (fst (fs_rename s a b))).
+Lemma fs_rename_wf s a b : wf (sv_tree s) -> wf (sv_tree (fst (fs_rename s a b))).
 Proof.
   intros Hwf. unfold fs_rename. destruct (srv_rename s (skey a) (skey b)) as [s'|e] eqn:E; [|exact Hwf].
   apply srv_rename_ok in E; [|exact Hwf]. destruct E as [Hpre ->]. cbn. now apply rename_wf.
 Qed.
 
-Lemma step_wf st it : wf (s_tree (st_srv st)) -> wf (s_tree (st_srv (fst (sftp_step st it)))).
+Lemma step_wf st it : wf (sv_tree (sst_srv st)) -> wf (sv_tree (sst_srv (fst (sftp_step st it)))).
 Proof.
-  destruct it as [slot o]. destruct st as [s slots]. cbn [st_srv]. intros Hwf.
-  destruct o; unfold sftp_step; cbn [fst snd st_srv st_slots].
+  destruct it as [slot o]. destruct st as [s slots]. cbn [sst_srv]. intros Hwf.
+  destruct o; unfold sftp_step; cbn [fst snd sst_srv sst_slots].
   - destruct (c_open s p create_flags true) as [[s' f]|e] eqn:E; cbn; [|exact Hwf]. eapply c_open_wf; eauto.
   - pose proof (fs_mkdir_wf s p Hwf) as H. destruct (fs_mkdir s p); exact H.
   - pose proof (fs_mkdirall_wf false (S (length p)) s p Hwf) as H. destruct (fs_mkdirall _ _ s p); exact H.
@@ -1046,7 +1083,7 @@ Proof.
   - destruct (sf_slot_get slots h) as [f|]; [|exact Hwf].
     destruct (c_writeat _ f b (sf_off f)) as [[[c'|] n] e]; exact Hwf.
   - destruct (sf_slot_get slots h) as [f|]; [|exact Hwf]. destruct (sf_closed f); [exact Hwf|].
-    match goal with |- context [match ?tt with SOk _ => _ | SErr _ => _ end] => destruct tt as [tg|e] end; [|exact Hwf].
+    match goal with |- context [match ?tt with SfOk _ => _ | SfErr _ => _ end] => destruct tt as [tg|e] end; [|exact Hwf].
     destruct (tg <? 0); exact Hwf.
   - destruct (sf_slot_get slots h) as [f|]; [|exact Hwf]. destruct (sf_closed f); [exact Hwf|].
     destruct (srv_setstat s (sf_key f) (Some n)) as [s'|e] eqn:E; [|exact Hwf].
@@ -1062,7 +1099,7 @@ Proof.
   - destruct (sf_slot_get slots h) as [f|]; exact Hwf.
 Qed.
 
-Theorem reachable_wf : forall items st, wf (s_tree (st_srv st)) -> wf (s_tree (st_srv (fst (sftp_run st items)))).
+Theorem reachable_wf : forall items st, wf (sv_tree (sst_srv st)) -> wf (sv_tree (sst_srv (fst (sftp_run st items)))).
 Proof.
   induction items as [|it items IH]; intros st Hwf; [exact Hwf|].
   cbn [sftp_run]. pose proof (step_wf st it Hwf) as H1.
@@ -1071,10 +1108,10 @@ Proof.
 Qed.
 
 (* ================================================================ H. directory creation *)
-Definition is_dir (s : server) (k : pkey) : Prop := lfetch (s_tree s) k = Some NDir.
+Definition is_dir (s : server) (k : pkey) : Prop := lfetch (sv_tree s) k = Some SfDir.
 
 (* in a well-formed tree every ancestor of a directory is a directory *)
-Lemma wf_ancestors s k : wf (s_tree s) -> is_dir s k -> forall a rest, k = a ++ rest -> is_dir s a.
+Lemma wf_ancestors s k : wf (sv_tree s) -> is_dir s k -> forall a rest, k = a ++ rest -> is_dir s a.
 Proof.
   intros Hwf Hk a rest. revert k Hk. induction rest as [|x rest IH] using rev_ind; intros k Hk Heq.
   - rewrite app_nil_r in Heq. now subst.
@@ -1087,15 +1124,15 @@ Qed.
 
 Lemma srv_stat_dir s k z : srv_stat s k = Some (true, z) -> is_dir s k.
 Proof.
-  unfold srv_stat, is_dir. destruct (lfetch (s_tree s) k) as [[|i]|]; try discriminate. reflexivity.
+  unfold srv_stat, is_dir. destruct (lfetch (sv_tree s) k) as [[|i]|]; try discriminate. reflexivity.
 Qed.
 
-Lemma srv_stat_file s k z : srv_stat s k = Some (false, z) -> exists i, lfetch (s_tree s) k = Some (NFile i).
+Lemma srv_stat_file s k z : srv_stat s k = Some (false, z) -> exists i, lfetch (sv_tree s) k = Some (SfFile i).
 Proof.
-  unfold srv_stat. destruct (lfetch (s_tree s) k) as [[|i]|]; try discriminate. eauto.
+  unfold srv_stat. destruct (lfetch (sv_tree s) k) as [[|i]|]; try discriminate. eauto.
 Qed.
 
-Lemma srv_setstat_dir_unchanged s s' k sz q : srv_setstat s k sz = SOk s' -> is_dir s q -> is_dir s' q.
+Lemma srv_setstat_dir_unchanged s s' k sz q : srv_setstat s k sz = SfOk s' -> is_dir s q -> is_dir s' q.
 Proof. intros H. unfold is_dir. now rewrite (srv_setstat_tree _ _ _ _ H). Qed.
 
 Lemma mk_finish_ok s p s' : mk_finish s p = (s', ROk) -> is_dir s' (skey p).
@@ -1105,7 +1142,7 @@ Proof.
   - (* MKDIR succeeded; whatever the Chmod says, the directory is there *)
     assert (Hd : is_dir s1 (skey p)).
     { unfold srv_mkdir, putfile in E. destruct (canon_err _ _); [discriminate|].
-      destruct (lfetch (s_tree s) (skey p)) eqn:El; [discriminate|]. inversion E; subst. unfold is_dir; cbn.
+      destruct (lfetch (sv_tree s) (skey p)) eqn:El; [discriminate|]. inversion E; subst. unfold is_dir; cbn.
       rewrite lfetch_kset by (eapply lfetch_none_nonroot; eauto). now rewrite keqb_refl. }
     destruct (fs_setattr s1 p) eqn:Ea;
       try (destruct (srv_stat s1 (skey p)) as [[[|] ?]|]);
@@ -1118,7 +1155,7 @@ Qed.
    file to begin with (the fast path returns Stat's nil error) *)
 Lemma fs_mkdirall_ok fixed fuel s p s' :
   fs_mkdirall fixed fuel s p = (s', ROk) ->
-  is_dir s' (skey p) \/ (fixed = false /\ s' = s /\ exists i, lfetch (s_tree s) (skey p) = Some (NFile i)).
+  is_dir s' (skey p) \/ (fixed = false /\ s' = s /\ exists i, lfetch (sv_tree s) (skey p) = Some (SfFile i)).
 Proof.
   rewrite fs_mkdirall_eq.
   destruct (srv_stat s (skey p)) as [[[|] z]|] eqn:Es.
@@ -1133,13 +1170,13 @@ Proof.
 Qed.
 
 Theorem mkdirall_creates_ancestors fixed fuel s p s' :
-  wf (s_tree s) ->
-  (fixed = true \/ forall i, lfetch (s_tree s) (skey p) <> Some (NFile i)) ->
+  wf (sv_tree s) ->
+  (fixed = true \/ forall i, lfetch (sv_tree s) (skey p) <> Some (SfFile i)) ->
   fs_mkdirall fixed fuel s p = (s', ROk) ->
   forall a rest, skey p = a ++ rest -> is_dir s' a.
 Proof.
   intros Hwf Hnf H a rest Heq.
-  assert (Hwf' : wf (s_tree s')).
+  assert (Hwf' : wf (sv_tree s')).
   { pose proof (fs_mkdirall_wf fixed fuel s p Hwf) as Hw. now rewrite H in Hw. }
   apply fs_mkdirall_ok in H. destruct H as [Hd | (Hfx & -> & [i Hi])].
   - eapply wf_ancestors; eauto.
@@ -1148,7 +1185,7 @@ Qed.
 
 (* the defect: MkdirAll on an existing regular file reports success and creates nothing *)
 Theorem mkdirall_on_file_reports_ok fuel s p i :
-  lfetch (s_tree s) (skey p) = Some (NFile i) -> fs_mkdirall false fuel s p = (s, ROk).
+  lfetch (sv_tree s) (skey p) = Some (SfFile i) -> fs_mkdirall false fuel s p = (s, ROk).
 Proof.
   intros H. rewrite fs_mkdirall_eq. unfold srv_stat. rewrite H. reflexivity.
 Qed.
@@ -1158,24 +1195,24 @@ Qed.
 
 (* ================================================================ I. Stat / Remove / Rename delegate *)
 Theorem stat_delegates s p :
-  fs_stat s p = match lfetch (s_tree s) (skey p) with
+  fs_stat s p = match lfetch (sv_tree s) (skey p) with
                 | None => RErr eNotExist
-                | Some NDir => RInfo (info_of (path_base p) true 0)
-                | Some (NFile i) => RInfo (info_of (path_base p) false (zlen (obj_content (s_objs s) i)))
+                | Some SfDir => RInfo (info_of (path_base p) true 0)
+                | Some (SfFile i) => RInfo (info_of (path_base p) false (zlen (obj_content (sv_objs s) i)))
                 end.
-Proof. unfold fs_stat, srv_stat. destruct (lfetch (s_tree s) (skey p)) as [[|i]|]; reflexivity. Qed.
+Proof. unfold fs_stat, srv_stat. destruct (lfetch (sv_tree s) (skey p)) as [[|i]|]; reflexivity. Qed.
 
 Theorem remove_delegates s p s' r : fs_remove s p = (s', r) ->
-  s_objs s' = s_objs s /\
+  sv_objs s' = sv_objs s /\
   match r with
-  | ROk => (forall q, q <> skey p -> lfetch (s_tree s') q = lfetch (s_tree s) q) /\
-           (skey p <> [] -> lfetch (s_tree s') (skey p) = None) /\
-           (exists n, lfetch (s_tree s) (skey p) = Some n)
+  | ROk => (forall q, q <> skey p -> lfetch (sv_tree s') q = lfetch (sv_tree s) q) /\
+           (skey p <> [] -> lfetch (sv_tree s') (skey p) = None) /\
+           (exists n, lfetch (sv_tree s) (skey p) = Some n)
   | _ => s' = s
   end.
 Proof.
   intros H. split; [pose proof (fs_remove_objs s p) as Ho; now rewrite H in Ho|].
-  unfold fs_remove in H. destruct (lfetch (s_tree s) (skey p)) as [[|i]|] eqn:El.
+  unfold fs_remove in H. destruct (lfetch (sv_tree s) (skey p)) as [[|i]|] eqn:El.
   - unfold srv_rmdir in H. rewrite El in H. destruct (has_child _ _); inversion H; subst; try reflexivity.
     cbn. split; [intros q Hq; now apply lfetch_kdel|]. split; [|eauto].
     intros Hne. rewrite lfetch_nonroot by exact Hne. apply kget_kdel_same.
@@ -1184,14 +1221,14 @@ Proof.
   - inversion H; subst. reflexivity.
 Qed.
 
-Theorem rename_delegates s a b s' r : wf (s_tree s) -> fs_rename s a b = (s', r) ->
-  s_objs s' = s_objs s /\
+Theorem rename_delegates s a b s' r : wf (sv_tree s) -> fs_rename s a b = (s', r) ->
+  sv_objs s' = sv_objs s /\
   match r with
-  | ROk => (exists n, lfetch (s_tree s) (skey a) = Some n) /\ lfetch (s_tree s) (skey b) = None /\
-           forall q, lfetch (s_tree s') q =
+  | ROk => (exists n, lfetch (sv_tree s) (skey a) = Some n) /\ lfetch (sv_tree s) (skey b) = None /\
+           forall q, lfetch (sv_tree s') q =
                      match kstrip (skey a) q with
                      | Some _ => None
-                     | None => lfetch (s_tree s) (rename_src (skey a) (skey b) q)
+                     | None => lfetch (sv_tree s) (rename_src (skey a) (skey b) q)
                      end
   | _ => s' = s
   end.
@@ -1209,15 +1246,15 @@ Qed.
 Definition pred_ok (p : option res) (r : res) : Prop := forall x, p = Some x -> x = r.
 
 Theorem spec_run_agrees : forall items st,
-  map fst (sftp_run_spec st (s_objs (st_srv st)) items) = map snd (sftp_run_obs st items) /\
-  Forall2 pred_ok (map snd (sftp_run_spec st (s_objs (st_srv st)) items)) (map fst (sftp_run_obs st items)).
+  map fst (sftp_run_spec st (sv_objs (sst_srv st)) items) = map snd (sftp_run_obs st items) /\
+  Forall2 pred_ok (map snd (sftp_run_spec st (sv_objs (sst_srv st)) items)) (map fst (sftp_run_obs st items)).
 Proof.
   induction items as [|it items IH]; intros st; [split; [reflexivity | constructor]|].
   cbn [sftp_run_spec sftp_run_obs].
   pose proof (step_acct st it) as Hs. pose proof (reads_exact st it) as Hr.
   destruct (sftp_step st it) as [st1 x]. cbn [fst snd] in Hs, Hr.
   rewrite <- Hs. destruct (IH st1) as [IH1 IH2].
-  assert (Hsrv : mkSrv (s_tree (st_srv st1)) (s_objs (st_srv st1)) = st_srv st1) by (destruct (st_srv st1); reflexivity).
+  assert (Hsrv : mkSfSrv (sv_tree (sst_srv st1)) (sv_objs (sst_srv st1)) = sst_srv st1) by (destruct (sst_srv st1); reflexivity).
   cbn [map fst snd]. rewrite Hsrv. split.
   - now rewrite IH1.
   - constructor; [|exact IH2]. intros y Hy. symmetry. now apply Hr.
